@@ -307,8 +307,151 @@ Eval vm_compute in map (fun c => let m := comp_assertions true (fst c) in
                     bad = re.findall(r'static_assert failed.*?"([^"]+)"', e)[:5]
                     ck.violation("C06-number-target:" + t, "an asserted number differs from what the C compiler computes for this target", {"target": t, "failed": bad, "header": hdr[:2500]})
         ck.notes["targets"] = TARGETS
+        inst_family(ck, bindgen, tmp, quick)
     finally:
         shutil.rmtree(tmp, ignore_errors=True)
+
+
+def balanced_generic(text, i):
+    """text[i] == '<' -> index just after the matching '>'"""
+    depth, j = 0, i
+    while j < len(text):
+        if text[j] == "<":
+            depth += 1
+        elif text[j] == ">" and text[j - 1] != "-":
+            depth -= 1
+            if depth == 0:
+                return j + 1
+        j += 1
+    return j
+
+
+def norm_ty(t):
+    return re.sub(r"\s+", "", t)
+
+
+def inst_family(ck, bindgen, tmp, quick):
+    """template instantiations with concrete arguments: every one that appears in the bindings must get a size and an alignment assertion
+    (both assertion forms, namespaces on and off), stating clang's numbers"""
+    r = ck.rng
+    ARGS = ["int", "char", "double", "n1::E", "n2::E", "S", "Box<int>", "Box<n2::E>", "long long", "short", "n1::S1", "Pair<char, double>", "bool", "void *"]
+    for b in range(4 if quick else 40):
+        uses = []      # (member name, C++ type, how)
+        k = 0
+        body = ""
+        byvalue = set()
+        fixed_members = []
+        if b == 0:
+            # instantiations whose names differ only by the namespace of an argument or of the template itself
+            fixed_members = [("Box<n1::E>", "value"), ("Box<n2::E>", "value"), ("n1::Wrap<int>", "value"), ("n2::Wrap<int>", "value"), ("Pair<n1::E, n2::E>", "value"),
+                             ("Pair<n2::E, n1::E>", "value"), ("Box<int>", "value"), ("Box<int>", "array"), ("Box<n1::S1>", "value"), ("Box<n2::S1>", "value")]
+        for ty, how in fixed_members:
+            body += "  %s m%d%s;\n" % (ty, k, "[3]" if how == "array" else "")
+            uses.append(("m%d" % k, ty, how))
+            byvalue.add(norm_ty(ty))
+            k += 1
+        for _ in range(r.choice([3, 5, 8]) if b else 0):
+            tmpl = r.choice(["Box", "Box", "Pair", "n1::Wrap", "n2::Wrap"])
+            if tmpl == "Pair":
+                ty = "Pair<%s, %s>" % (r.choice(ARGS[:6] + ARGS[8:10]), r.choice(ARGS))
+            else:
+                ty = "%s<%s>" % (tmpl, r.choice(ARGS))
+            how = r.choice(["value", "value", "value", "array", "pointer"])
+            body += "  %s m%d%s;\n" % (ty + (" *" if how == "pointer" else ""), k, "[3]" if how == "array" else "")
+            uses.append(("m%d" % k, ty, how))
+            if how in ("value", "array"):
+                byvalue.add(norm_ty(ty))
+            k += 1
+        extra = []
+        for _ in range(r.choice([0, 1, 2])):
+            ty = "Box<%s>" % r.choice(["float", "unsigned char", "unsigned short"])
+            kind = r.choice(["typedef", "extern", "param"])
+            extra.append((ty, kind))
+        hdr = ("template<class T> struct Box { T v; long w; };\ntemplate<class A, class B> struct Pair { A a; B b; };\n"
+               "namespace n1 { enum E { A1, A2 }; struct S1 { char c[3]; }; template<class T> struct Wrap { T t; char tail; }; }\nnamespace n2 { enum class E : char { B1 }; struct S1 { long l; }; template<class T> struct Wrap { T t; short tail; }; }\nstruct S { double d; char c; };\n"
+               "struct H {\n%s};\n" % body)
+        for q, (ty, kind) in enumerate(extra):
+            hdr += {"typedef": "typedef %s TD%d;\n", "extern": "extern %s gv%d;\n", "param": "void fp%d_(%s *p);\n"}[kind] % ((ty, q) if kind != "param" else (q, ty))
+        p = os.path.join(tmp, "inst%d.hpp" % b)
+        open(p, "w").write(hdr)
+        # clang's numbers for every by-value member
+        probe = '#include <cstdio>\n#include <cstddef>\n#include "%s"\nint main() {\n' % os.path.basename(p)
+        for m, ty, how in uses:
+            if how == "value":
+                probe += '  printf("%s %%zu %%zu\\n", sizeof(%s), alignof(%s));\n' % (m, ty, ty)
+        probe += "  return 0; }\n"
+        open(os.path.join(tmp, "instp%d.cpp" % b), "w").write(probe)
+        rc, o, e = sh2(["clang++", "-std=c++17", "-w", "-o", "instp%d" % b, "instp%d.cpp" % b], cwd=tmp, timeout=120)
+        if rc != 0:
+            raise TieBroken("c06-inst-generator", e[-800:] + hdr)
+        rc, o, e = sh2([os.path.join(tmp, "instp%d" % b)], timeout=60)
+        cnum = {l.split()[0]: (int(l.split()[1]), int(l.split()[2])) for l in o.splitlines()}
+        for flags in ([], ["--enable-cxx-namespaces"], ["--rust-target", "1.73"], ["--rust-target", "1.73", "--enable-cxx-namespaces"]):
+            rc, out, err = sh2([bindgen, p] + flags + ["--", "-x", "c++", "-std=c++17"], timeout=120)
+            ck.evaluations += 1
+            ck.nontrivial.add(("inst", hdr, tuple(flags)))
+            data = {"header": hdr, "flags": flags}
+            if rc != 0:
+                ck.violation("C06-inst:bindgen-failed", "bindgen fails on a header of template instantiations", dict(data, stderr=err[-400:]))
+                continue
+            # asserted types: the argument of size_of / align_of next to a "template specialization" message
+            asserted = {}
+            for m in re.finditer(r"(size_of|align_of)\s*::\s*<", out):
+                i = m.end() - 1
+                j = balanced_generic(out, i)
+                ty = norm_ty(out[i + 1:j - 1])
+                ctxt = out[max(0, m.start() - 400):j + 300]
+                n = re.search(r"\)\s*-\s*(\d+)usize|\(\)\s*,\s*(\d+)usize", out[j:j + 80])
+                if "template specialization" in ctxt and n:
+                    asserted.setdefault(ty, {})[m.group(1)] = int(n.group(1) or n.group(2))
+            # the Rust type of every member of H
+            hb = e2e.struct_body(out, "H")
+            ftypes = {}
+            for m in re.finditer(r"pub (m\d+)\s*:\s*", hb):
+                j = m.end()
+                depth = 0
+                k2 = j
+                while k2 < len(hb) and not (hb[k2] == "," and depth == 0):
+                    depth += hb[k2] in "<[("
+                    depth -= hb[k2] in ">])" and hb[k2 - 1] != "-"
+                    k2 += 1
+                ftypes[m.group(1)] = norm_ty(hb[j:k2])
+            for mname, ty, how in uses:
+                rt = ftypes.get(mname)
+                if rt is None:
+                    ck.violation("C06-inst:member-missing", "a member of instantiation type is missing from the struct", dict(data, member=mname))
+                    continue
+                if how == "array":
+                    rt = re.sub(r"^\[(.*);\d+usize\]$", r"\1", rt)
+                if how == "pointer":
+                    rt = re.sub(r"^\*(?:mut|const)", "", rt)
+                a = asserted.get(rt)
+                if not a or "size_of" not in a or "align_of" not in a:
+                    if how == "pointer" and norm_ty(ty) not in byvalue:
+                        ck.violation("C06-inst-unasserted:not-held-by-value", "a template instantiation with concrete arguments appears in the bindings (behind a pointer) without size / alignment assertion",
+                                     dict(data, member=mname, cxx_type=ty, rust_type=rt))
+                    else:
+                        ck.violation("C06-inst-unasserted", "a template instantiation with concrete arguments that a struct holds by value gets no size / alignment assertion",
+                                     dict(data, member=mname, cxx_type=ty, rust_type=rt, asserted_types=sorted(asserted)))
+                    continue
+                if how == "value" and (a["size_of"], a["align_of"]) != cnum[mname]:
+                    ck.violation("C06-inst-number", "the asserted size / alignment of a template instantiation differs from the C++ compiler's", dict(data, member=mname, cxx_type=ty, asserted=a, clang=cnum[mname]))
+            for q, (ty, kind) in enumerate(extra):
+                if norm_ty(ty) in byvalue:
+                    continue
+                rt = [t for t in asserted if t.replace("root::", "").startswith("Box<")]
+                # these instantiations are named by a typedef / extern variable / parameter only
+                args_rs = {"float": "f32", "unsigned char": "c_uchar", "unsigned short": "c_ushort"}[ty[4:-1]]
+                if not any(args_rs in t for t in rt):
+                    ck.violation("C06-inst-unasserted:not-held-by-value", "a template instantiation with concrete arguments appears in the bindings (typedef target / variable / parameter) without size / alignment assertion",
+                                 dict(data, cxx_type=ty, used_as=kind))
+            # rustc must accept the assertions
+            if not flags or flags == ["--enable-cxx-namespaces"]:
+                src = os.path.join(tmp, "instb%d.rs" % b)
+                open(src, "w").write("#![allow(warnings)]\n" + out + "\nfn main() {}\n")
+                rc, o, e = sh2(["rustc", "--edition", "2021", "-A", "warnings", "--emit", "metadata", "-o", os.path.join(tmp, "instb%d.rmeta" % b), src], cwd=tmp, timeout=300)
+                if rc != 0:
+                    ck.violation("C06-inst:assertions-rejected", "rustc rejects the bindings with their instantiation assertions", dict(data, rustc=e2e.rustc_errors(e, 2)))
 
 
 def replay(ck, path):
